@@ -30,6 +30,21 @@ def cfg_name(c):
     return f"-O{c[0]}{' -g' if c[1] else ''}"
 
 
+def impl(fn, cases):
+    """vlib.run_impl in batches (a worker then handles ~60 cases: its time-out of
+    two hours is only reached on a machine that is not usable anyway)"""
+    out = []
+    for i in range(0, len(cases), 1000):
+        out += vlib.run_impl(fn, cases[i:i + 1000], timeout=7200)
+    return out
+
+
+# developer aids (never set by ./check itself): C05_KINDS=a,b restricts the fault
+# kinds, C05_SKIP=table,unrelated,quirks,blocks,streams,corpus skips suites
+DEV_KINDS = [k for k in os.environ.get('C05_KINDS', '').split(',') if k]
+DEV_SKIP = [k for k in os.environ.get('C05_SKIP', '').split(',') if k]
+
+
 # --------------------------------------------------------------------------
 # judging a verdict against the catalogue
 
@@ -245,7 +260,7 @@ def main(tier, seed):
     pmap = {p.name: p for p in progs}
 
     # ---- suite: the generated table end to end (every entry = a small program)
-    if tab is not None:
+    if tab is not None and 'table' not in DEV_SKIP:
         bad = gen_c05_tables.failing_entries(tab)
         entries = [('bin', e) for e in tab['binops']] + [('un', e) for e in tab['unops']]
         order = list(range(len(entries)))
@@ -261,13 +276,15 @@ def main(tier, seed):
             src = '\n'.join(pre + [stmt]) + '\n'
             cases.append({'src': src, 'cfgs': [[0, 0]]})
             meta.append((w, e, src, len(pre) + 1))
-        res = vlib.run_impl('staticfn.compile_cfgs', cases)
+        res = impl('staticfn.compile_cfgs', cases)
         ops = {o[0]: o for o in tab['ops']}
+        replay_of = {}
         for (w, e, src, fl), r in zip(meta, res):
             if isinstance(r, dict):
                 ctx.broken.append(f'table suite: worker failed {r}')
                 break
             v = r[0]
+            replay_of[tuple(e[:3] if w == 'bin' else e[:2])] = {'program': src, 'verdict': v}
             if w == 'bin':
                 o = ops[e[0]]
                 want = gen_c05_tables.rule_bin(e[0], o[3], o[4], o[1], e[1], e[2])
@@ -291,18 +308,24 @@ def main(tier, seed):
                 # the table (internals called directly) and the end-to-end verdict disagree
                 ctx.report(f'C05/type-table-tie(operator:{what})', detail, False)
         ctx.count('type_table_programs', len(cases), {m[2] for m in meta})
+        if meta:
+            ctx.sample({'suite': 'type_table_programs', 'program': meta[len(meta) // 3][2]})
         ctx.rule.append(f'type table: {len(tab["binops"])} binary + {len(tab["unops"])} unary entries '
                         f'(21 operators x 7 type kinds [x 7]) regenerated from the code; '
                         f'{len(cases)} entries also compiled as a one-line program '
                         f'(PRINT <var> op <var>) and compared with the rule')
         for b in bad:
+            # the failing entry of the finite obligation, as a concrete operator /
+            # type pair and a one-line program with its real compile verdict
+            b = dict(b)
+            b.update(replay_of.get(tuple(b['codes']), {}))
             ctx.report(f"C05/type-rule({b.get('op', 'coerce')},{b.get('lt', b.get('t', b.get('from')))},"
                        f"{b.get('rt', b.get('to', ''))})", b, bool(b['verdict_differs']))
         if not proved and not bad:
             pass  # a Coq failure elsewhere: reported by ctx.broken
 
     # ---- suite: base programs are valid at the six configurations
-    res = vlib.run_impl('staticfn.compile_cfgs',
+    res = impl('staticfn.compile_cfgs',
                         [{'src': '\n'.join(p.lines) + '\n', 'cfgs': CFGS} for p in progs])
     for p, r in zip(progs, res):
         for c, v in zip(CFGS, r if isinstance(r, list) else []):
@@ -316,7 +339,7 @@ def main(tier, seed):
 
     # ---- suite: an unrelated valid statement elsewhere never causes a rejection
     un_cases, un_meta = [], []
-    for p in progs:
+    for p in (progs if 'unrelated' not in DEV_SKIP else []):
         pts = p.points()
         variants = [('prepend', 0, ['zqu% = 1']), ('append', len(p.lines), ['PRINT "zq"; 1'])]
         sel = pts if tier != 'quick' else pts[::4]
@@ -331,7 +354,7 @@ def main(tier, seed):
             cf = CFGS if nm in ('prepend', 'append') else [CFGS[(at + pidx[p.name]) % 6]]
             un_cases.append({'src': src, 'cfgs': cf})
             un_meta.append((p.name, nm, cf, src))
-    res = vlib.run_impl('staticfn.compile_cfgs', un_cases)
+    res = impl('staticfn.compile_cfgs', un_cases)
     n_un = 0
     for (pn, nm, cf, src), r in zip(un_meta, res):
         for c, v in zip(cf, r if isinstance(r, list) else []):
@@ -356,7 +379,9 @@ def main(tier, seed):
         ('sub-before-use', 'SUB p (a AS INTEGER)\nEND SUB\np 1\n'),
         ('record-field-compare', 'TYPE t\n  a AS INTEGER\nEND TYPE\nDIM r AS t\nIF r.a = 0 THEN PRINT 1\n'),
     ]
-    res = vlib.run_impl('staticfn.compile_cfgs', [{'src': s, 'cfgs': CFGS} for _n, s in quirks])
+    if 'quirks' in DEV_SKIP:
+        quirks = []
+    res = impl('staticfn.compile_cfgs', [{'src': s, 'cfgs': CFGS} for _n, s in quirks])
     for (nm, src), r in zip(quirks, res):
         for c, v in zip(CFGS, r if isinstance(r, list) else []):
             if v['v'] != 'ok':
@@ -368,6 +393,10 @@ def main(tier, seed):
     all_inj = []
     for i, p in enumerate(progs):
         all_inj += c05faults.enumerate_injections(p, i)
+    if DEV_KINDS:
+        all_inj = [d for d in all_inj if d['kind'] in DEV_KINDS]
+        print(f'DEV MODE (not a full check): fault kinds {DEV_KINDS}, skipped suites {DEV_SKIP}')
+        ctx.extra['dev_mode'] = {'kinds': DEV_KINDS, 'skip': DEV_SKIP}
     order = list(range(len(all_inj)))
     random.Random(seed + 2).shuffle(order)
     n6 = 1500 if tier == 'quick' else 4500
@@ -387,18 +416,21 @@ def main(tier, seed):
 
     # controls: the helper lines of every variant are valid
     ctrl_cases, ctrl_meta, seen_ctrl = [], [], {}
-    for i in chosen:
+    chosen_q = sorted(order[:1500])
+    in_q = set(chosen_q)
+    cap = 2 if tier == 'quick' else 4       # quick's two per variant come first
+    for i in chosen_q + [j for j in chosen if j not in in_q]:
         d = all_inj[i]
         if 'control' not in d:
             continue
         key = (d['kind'], d['variant'].split('/')[0])
-        if seen_ctrl.get(key, 0) >= 2:
+        if seen_ctrl.get(key, 0) >= cap:
             continue
         seen_ctrl[key] = seen_ctrl.get(key, 0) + 1
         src, _ = c05faults.build(pmap[d['prog']], d, control=True)
         ctrl_cases.append({'src': src, 'cfgs': [[0, 0]]})
         ctrl_meta.append((d, src))
-    res = vlib.run_impl('staticfn.compile_cfgs', ctrl_cases)
+    res = impl('staticfn.compile_cfgs', ctrl_cases)
     for (d, src), r in zip(ctrl_meta, res):
         v = r[0] if isinstance(r, list) else {'v': 'harness'}
         if v['v'] != 'ok':
@@ -413,7 +445,7 @@ def main(tier, seed):
         cf = CFGS if i in six else [CFGS[i % 6]]
         cases.append({'src': src, 'cfgs': cf})
         meta.append((i, d, src, lines_ok, cf))
-    res = vlib.run_impl('staticfn.compile_cfgs', cases)
+    res = impl('staticfn.compile_cfgs', cases)
     n_eval = 0
     outcome_dist = {}
     for (i, d, src, lines_ok, cf), r in zip(meta, res):
@@ -441,9 +473,17 @@ def main(tier, seed):
 
     # ---- Blocks model on the real statement stream of every block fault
     bl = [(i, d, src) for (i, d, src, _lo, _cf) in meta if d.get('block')]
+    # quick: the block faults of the seeded sample (a subset of thorough's list,
+    # which takes every 2nd of all block faults plus quick's)
+    if 'blocks' in DEV_SKIP:
+        bl = []
+    bl_q = [x for x in bl if x[0] in set(order[:1500])][:400]
     if tier == 'quick':
-        bl = bl[:400]
-    bres = vlib.run_impl('staticfn.blocks_case', [{'src': s} for (_i, _d, s) in bl])
+        bl = bl_q
+    else:
+        ids = {x[0] for x in bl_q}
+        bl = bl_q + [x for n, x in enumerate(bl) if x[0] not in ids and n % 2 == 0]
+    bres = impl('staticfn.blocks_case', [{'src': s} for (_i, _d, s) in bl])
     jobs_a, jobs_f, keep = [], [], []
     for (i, d, src), r in zip(bl, bres):
         if not isinstance(r, dict) or 'stream' not in r:
@@ -490,7 +530,9 @@ def main(tier, seed):
     bal = balanced_streams(rs, 1500)            # thorough's prefix = quick's list
     mut = [mutate(random.Random(seed * 7919 + j), b) for j, b in enumerate(bal)]
     streams += bal[:nb if tier != 'quick' else nbq] + mut[:nb if tier != 'quick' else nbq]
-    sres = vlib.run_impl('staticfn.blocks_case', [{'src': stream_text(s)} for s in streams])
+    if 'streams' in DEV_SKIP:
+        streams = []
+    sres = impl('staticfn.blocks_case', [{'src': stream_text(s)} for s in streams])
     jobs_a, jobs_f, keep = [], [], []
     for s, r in zip(streams, sres):
         if not isinstance(r, dict) or 'stream' not in r:
@@ -541,15 +583,19 @@ def main(tier, seed):
         if len(sample_jobs) < 50:
             sample_jobs.append(([1, r['stream']], f))
     ctx.count('blocks_model_on_streams', 2 * len(keep), {stream_text(k[0]) for k in keep})
+    if keep:
+        k = keep[-1]
+        ctx.sample({'suite': 'blocks_model_on_streams', 'text': stream_text(k[0]),
+                    'stream': k[1]['stream'], 'real_parser': k[1]['parse'], 'real_compiler': k[1]['front']})
     ctx.rule.append(f'Blocks model on synthetic streams: every stream of length <= {maxlen} over '
                     f'{len(ALPHA)} statement forms, plus seeded balanced forests (depth <= 3) and 1-2 point '
                     f'mutations of them, rendered to text; model vs real parser and compiler')
 
     # ---- the repository's own compile-error tests pin the categories
-    corpus = vlib.run_impl('corpus.load', [None])[0]
+    corpus = impl('corpus.load', [None])[0] if 'corpus' not in DEV_SKIP else []
     if isinstance(corpus, list):
         errs = [c for c in corpus if c.get('expected_result') in ('compileerror', 'syntaxerror')]
-        res = vlib.run_impl('staticfn.compile_cfgs', [{'src': c['src'], 'cfgs': CFGS} for c in errs])
+        res = impl('staticfn.compile_cfgs', [{'src': c['src'], 'cfgs': CFGS} for c in errs])
         for c, r in zip(errs, res):
             for cf, v in zip(CFGS, r if isinstance(r, list) else []):
                 want = 'syntax' if c['expected_result'] == 'syntaxerror' else 'compile'
@@ -593,7 +639,7 @@ def replay(path):
     if isinstance(src, list):
         src = '\n'.join(src) + '\n'
     if src:
-        r = vlib.run_impl('staticfn.compile_cfgs', [{'src': src, 'cfgs': CFGS}])[0]
+        r = impl('staticfn.compile_cfgs', [{'src': src, 'cfgs': CFGS}])[0]
         print('real compiler now:')
         for c, v in zip(CFGS, r if isinstance(r, list) else []):
             print(' ', cfg_name(c), json.dumps(v))
